@@ -524,8 +524,31 @@ def _handle_expr(node: ast.expr, ctx: Context) -> sympy.Expr | None:
     raise NotImplementedError(msg)
 
 
+def _closure_vars(fn: Callable) -> dict[str, Any]:
+    """Variables of enclosing functions that a (factory-made) function refers to."""
+    code = getattr(fn, "__code__", None)
+    cells = getattr(fn, "__closure__", None)
+    if code is None or not cells:
+        return {}
+    try:
+        return {
+            name: cell.cell_contents
+            for name, cell in zip(code.co_freevars, cells, strict=True)
+        }
+    except ValueError:  # empty cell
+        msg = "Closure variable without a value"
+        raise NotImplementedError(msg) from None
+
+
 def _handle_name(node: ast.Name, ctx: Context) -> sympy.Symbol | sympy.Expr:
     value = ctx.symbols.get(node.id)
+    if value is None and node.id in (nonlocals := _closure_vars(ctx.caller)):
+        # a variable of an enclosing function comes before the module's globals
+        value = nonlocals[node.id]
+        if isinstance(value, bool) or not isinstance(value, (int, float)):
+            msg = f"Closure variable {node.id} is not a number"
+            raise NotImplementedError(msg)
+        return sympy.Float(value)
     if value is None:
         global_variables = dict(
             inspect.getmembers(
@@ -725,6 +748,7 @@ def _handle_call(node: ast.Call, ctx: Context) -> sympy.Expr | None:
             fn_name = str(id)
             fns = (
                 dict(inspect.getmembers(ctx.parent_module, predicate=callable))
+                | {k: v for k, v in _closure_vars(ctx.caller).items() if callable(v)}
                 | ctx.fns
             )
             py_fn = fns.get(fn_name)
